@@ -59,7 +59,7 @@ fn sequence(mut idx: u64, l: u32) -> Vec<Behaviour> {
     out
 }
 
-const SPECIALS: u64 = 10;
+const SPECIALS: u64 = 12;
 
 pub fn plan(p: &EpParams) -> Plan {
     let l = max_len(p);
@@ -67,7 +67,7 @@ pub fn plan(p: &EpParams) -> Plan {
         episodes: n_sequences(l) * 2 + SPECIALS,
         exhaustive: true,
         rule: format!(
-            "fault sequences: every per-attempt endpoint behaviour sequence of length <= {} over {} behaviours (200 201 202 204 102 100 203 205 301 400 404 429 500 503 reset-after-request reset-on-accept answer-{}s-late) followed by 200, once with 1 message and once with 3 messages (sequence rotated per message), plus {} special episodes (closed port first, deletion while failing, always-late endpoint, and five episodes in which a unary puller competes with the push rounds for the same subscription). Push interval {} s, ack deadline {} s. Non-trivial: >=1 POST answered by each behaviour of the sequence. Distinct: the behaviour sequence x message count.",
+            "fault sequences: every per-attempt endpoint behaviour sequence of length <= {} over {} behaviours (200 201 202 204 102 100 203 205 301 400 404 429 500 503 reset-after-request reset-on-accept answer-{}s-late) followed by 200, once with 1 message and once with 3 messages (sequence rotated per message), plus {} special episodes (closed port first, deletion while failing, always-late endpoint, five episodes in which a unary puller competes with the push rounds for the same subscription, and two in which the endpoint never sends a final answer six times in a row). Push interval {} s, ack deadline {} s. Non-trivial: >=1 POST answered by each behaviour of the sequence. Distinct: the behaviour sequence x message count.",
             l, alphabet().len(), LATE_S, SPECIALS, INTERVAL_S, DEADLINE_S
         ),
     }
@@ -95,6 +95,10 @@ fn push_msg(tag: &str, i: usize) -> Msg {
     let mut data = format!("T:{}|", tag).into_bytes();
     if i % 2 == 1 {
         data.extend((0..=255u8).collect::<Vec<u8>>());
+    }
+    if i % 5 == 2 {
+        // a payload far beyond any internal block size
+        data.extend((0..70_000usize).map(|k| (k * 7 % 251) as u8));
     }
     Msg { tag: tag.to_string(), data, attrs }
 }
@@ -163,6 +167,11 @@ async fn episode(p: &EpParams) -> EpReport {
         if matches!(special, Some(5..=9)) {
             e.set_script("p0", vec![Behaviour::Status(500), Behaviour::Status(503), Behaviour::Status(500)]);
             e.set_script("p1", vec![Behaviour::ResetAfterRequest, Behaviour::Status(429)]);
+        }
+        // specials 10/11: the endpoint accepts the connection, sends an interim 100 and never a
+        // final answer, six times in a row: the message must keep being POSTed after every deadline
+        if matches!(special, Some(10) | Some(11)) {
+            e.set_script("p0", vec![Behaviour::Status(100); 6]);
         }
         // special 4: everything is late for ever (never accepted in time)
         if special == Some(4) {
